@@ -35,6 +35,7 @@ CONSTANTS
   GwFaultBudget,\* how often the gateway may answer a heartbeat / connect request badly or not at all (C09)
   MaxEpoch,     \* connection epochs
   EnableHB, EnableClose, EnableG2C, Adversary, UseTCP,
+  Urgent,       \* TRUE: client steps and due timers pre-empt every environment step (conformance generation)
   AckChanCheck, \* TRUE: requestTunnel also compares the acknowledgement's channel (the code since the second fix: commit)
   ChanUnderLock \* TRUE: requestConn assigns the channel under seqMu (the code since the fix: commit); FALSE: before the lock (the pinned tree)
 
@@ -81,6 +82,17 @@ NoF == [svc |-> "", ch |-> -1, seq |-> -1, st |-> -1, pid |-> -1]
 Act(name, g) == [n |-> name, g |-> g, f |-> NoF]
 ActF(name, f) == [n |-> name, g |-> 0, f |-> f]
 
+\* Timers of the client due at this instant. When several are due, which fires first is the Go runtime's
+\* choice: the action is then labelled "choice" (a behaviour is reproducible step by step only up to there).
+DueCount ==
+  (IF srv.pc = "conn" /\ conn.next = now THEN 1 ELSE 0) + (IF srv.pc = "conn" /\ conn.dead = now THEN 1 ELSE 0)
+  + Cardinality({g \in Senders : snd[g].st = "waiting" /\ snd[g].next = now})
+  + Cardinality({g \in Senders : snd[g].st = "waiting" /\ snd[g].dead = now})
+  + Cardinality({o \in offers : o.exp = now}) + Cardinality({o \in hbOffers : o.exp = now})
+  + Cardinality({w \in hb : w.pc = "wait" /\ w.next = now}) + Cardinality({w \in hb : w.pc = "wait" /\ w.dead = now})
+  + (IF srv.pc = "proc" /\ hbNext = now /\ ~done THEN 1 ELSE 0)
+TAct(g) == Act(IF DueCount > 1 THEN "choice" ELSE "timer", g)
+
 Idle == [st |-> "idle", pid |-> -1, seq |-> -1, ch |-> -1, next |-> -1, dead |-> -1]
 
 \* ---- bags as functions frame -> count -----------------------------------
@@ -120,7 +132,7 @@ ConnResend ==
   /\ srv.pc = "conn" /\ conn.next = now
   /\ Tx(Frame("ConnReq", -1, epoch, -1, -1))
   /\ conn' = [conn EXCEPT !.next = now + R]
-  /\ act' = Act("timer", 0)
+  /\ act' = TAct(0)
   /\ UNCHANGED <<now, srv, chan, sndSeq, rcvSeq, mu, muq, snd, offers, hbNext, hb, hbOffers, failSig, ackOpen, inbOpen, done,
                  once, closer, starting, queued, reader, got, delivered, rxq, sockOpen, g2c, dups, losses, injs, gwf, gw, bus, nsend, ntele, nid, epoch>>
 
@@ -135,7 +147,7 @@ ServeExitTo(s) ==
 ConnTimeout ==
   /\ srv.pc = "conn" /\ conn.dead = now
   /\ ServeExitTo([pc |-> "gone", a |-> -1, b |-> -1])
-  /\ ev' = NoEv /\ act' = Act("timer", 0)
+  /\ ev' = NoEv /\ act' = TAct(0)
   /\ UNCHANGED <<now, chan, sndSeq, rcvSeq, conn, mu, muq, snd, hbNext, hb, hbOffers, failSig, done, once, closer, got,
                  delivered, rxq, sockOpen, c2g, g2c, dups, losses, injs, gwf, gw, bus, nsend, ntele, nid, epoch>>
 
@@ -188,12 +200,16 @@ AppSend(g) ==
 \* Lock + build request + first transmission (one critical section, the lock stays held)
 SendFirstTx(g) ==
   /\ snd[g].st = "locking" /\ mu = 0 /\ Len(muq) > 0 /\ Head(muq) = g
-  /\ mu' = g /\ muq' = Tail(muq)
-  /\ LET s == IF UseTCP THEN 0 ELSE sndSeq
-         f == Frame("TunnelReq", chan, s, -1, snd[g].pid)
-     IN /\ Tx(f)
-        /\ snd' = [snd EXCEPT ![g] = [st |-> IF UseTCP THEN "tcpret" ELSE "waiting", pid |-> snd[g].pid, seq |-> s, ch |-> chan,
-                                      next |-> now + R, dead |-> now + T]]
+  /\ muq' = Tail(muq)
+  /\ IF sockOpen
+     THEN LET s == IF UseTCP THEN 0 ELSE sndSeq
+              f == Frame("TunnelReq", chan, s, -1, snd[g].pid)
+          IN /\ Tx(f) /\ mu' = g
+             /\ snd' = [snd EXCEPT ![g] = [st |-> IF UseTCP THEN "tcpret" ELSE "waiting", pid |-> snd[g].pid, seq |-> s, ch |-> chan,
+                                           next |-> now + R, dead |-> now + T]]
+     ELSE \* sock.Send on the closed socket fails: requestTunnel returns that error (the deferred Unlock runs)
+          /\ snd' = [snd EXCEPT ![g] = Idle] /\ mu' = 0
+          /\ ev' = SimEv("SendRet", g, snd[g].pid, "sockerr") /\ UNCHANGED c2g
   /\ act' = Act("internal", g)
   /\ UNCHANGED <<now, srv, chan, sndSeq, rcvSeq, conn, offers, hbNext, hb, hbOffers, failSig, ackOpen, inbOpen, done, once, closer,
                  starting, queued, reader, got, delivered, rxq, sockOpen, g2c, dups, losses, injs, gwf, gw, bus, nsend, ntele, nid, epoch>>
@@ -213,13 +229,13 @@ SendResend(g) ==
   /\ snd[g].st = "waiting" /\ snd[g].next = now
   /\ Tx(Frame("TunnelReq", snd[g].ch, snd[g].seq, -1, snd[g].pid))
   /\ snd' = [snd EXCEPT ![g].next = now + R]
-  /\ act' = Act("timer", g)
+  /\ act' = TAct(g)
   /\ UNCHANGED <<now, muq, srv, chan, sndSeq, rcvSeq, conn, mu, offers, hbNext, hb, hbOffers, failSig, ackOpen, inbOpen, done, once,
                  closer, starting, queued, reader, got, delivered, rxq, sockOpen, g2c, dups, losses, injs, gwf, gw, bus, nsend, ntele, nid, epoch>>
 
 SendTimeout(g) ==
   /\ snd[g].st = "waiting" /\ snd[g].dead = now
-  /\ Return(g, "timeout") /\ act' = Act("timer", g)
+  /\ Return(g, "timeout") /\ act' = TAct(g)
   /\ UNCHANGED <<now, muq, srv, chan, sndSeq, rcvSeq, conn, offers, hbNext, hb, hbOffers, failSig, ackOpen, inbOpen, done, once, closer,
                  starting, queued, reader, got, delivered, rxq, sockOpen, c2g, g2c, dups, losses, injs, gwf, gw, bus, nsend, ntele, nid, epoch>>
 
@@ -232,7 +248,8 @@ SendTakeAck(g) ==
           THEN /\ UNCHANGED <<snd, mu, sndSeq>> /\ ev' = NoEv      \* ignore mismatching sequence numbers / stale channels
           ELSE /\ sndSeq' = (sndSeq + 1) % M
                /\ Return(g, IF o.st = 0 THEN "ok" ELSE "rejected")
-  /\ act' = Act("internal", g)
+  \* several acknowledgements on offer: which one the select takes is the Go runtime's choice
+  /\ act' = Act(IF Cardinality(offers) > 1 THEN "choice" ELSE "internal", g)
   /\ UNCHANGED <<now, muq, srv, chan, rcvSeq, conn, hbNext, hb, hbOffers, failSig, ackOpen, inbOpen, done, once, closer,
                  starting, queued, reader, got, delivered, rxq, sockOpen, c2g, g2c, dups, losses, injs, gwf, gw, bus, nsend, ntele, nid, epoch>>
 
@@ -245,7 +262,7 @@ SendAckClosed(g) ==
 \* relay goroutine gives up after the resend interval, or when done is closed
 AckOfferExpire ==
   /\ \E o \in offers : (o.exp = now \/ done) /\ offers' = offers \ {o}
-  /\ ev' = NoEv /\ act' = Act("timer", 0)
+  /\ ev' = NoEv /\ act' = TAct(0)
   /\ UNCHANGED <<now, srv, chan, sndSeq, rcvSeq, conn, mu, muq, snd, hbNext, hb, hbOffers, failSig, ackOpen, inbOpen, done, once, closer,
                  starting, queued, reader, got, delivered, rxq, sockOpen, c2g, g2c, dups, losses, injs, gwf, gw, bus, nsend, ntele, nid, epoch>>
 
@@ -348,7 +365,7 @@ ProcHbTick ==
   /\ hb' = hb \cup {[id |-> nid, ch |-> chan, next |-> now + R, dead |-> now + T, pc |-> "wait"]}
   /\ nid' = nid + 1
   /\ Tx(Frame("ConnStateReq", chan, -1, 0, -1))
-  /\ act' = Act("timer", 0)
+  /\ act' = TAct(0)
   /\ UNCHANGED <<now, srv, chan, sndSeq, rcvSeq, conn, mu, muq, snd, offers, hbOffers, failSig, ackOpen, inbOpen, done, once, closer,
                  starting, queued, reader, got, delivered, rxq, sockOpen, g2c, dups, losses, injs, gwf, gw, bus, nsend, ntele, epoch>>
 
@@ -356,14 +373,14 @@ HbResend ==
   /\ \E w \in hb : /\ w.pc = "wait" /\ w.next = now
                    /\ hb' = (hb \ {w}) \cup {[w EXCEPT !.next = now + R]}
                    /\ Tx(Frame("ConnStateReq", w.ch, -1, 0, -1))
-  /\ act' = Act("timer", 0)
+  /\ act' = TAct(0)
   /\ UNCHANGED <<now, srv, chan, sndSeq, rcvSeq, conn, mu, muq, snd, offers, hbNext, hbOffers, failSig, ackOpen, inbOpen, done, once,
                  closer, starting, queued, reader, got, delivered, rxq, sockOpen, g2c, dups, losses, injs, gwf, gw, bus, nsend, ntele, nid, epoch>>
 
 HbTimeout ==
   /\ \E w \in hb : /\ w.pc = "wait" /\ w.dead = now
                    /\ hb' = (hb \ {w}) \cup {[w EXCEPT !.pc = "fail"]}
-  /\ ev' = NoEv /\ act' = Act("timer", 0)
+  /\ ev' = NoEv /\ act' = TAct(0)
   /\ UNCHANGED <<now, srv, chan, sndSeq, rcvSeq, conn, mu, muq, snd, offers, hbNext, hbOffers, failSig, ackOpen, inbOpen, done, once,
                  closer, starting, queued, reader, got, delivered, rxq, sockOpen, c2g, g2c, dups, losses, injs, gwf, gw, bus, nsend, ntele, nid, epoch>>
 
@@ -372,13 +389,13 @@ HbTakeRes ==
        /\ w.pc = "wait"
        /\ hbOffers' = hbOffers \ {o}
        /\ hb' = IF o.st = 0 THEN hb \ {w} ELSE (hb \ {w}) \cup {[w EXCEPT !.pc = "fail"]}
-  /\ ev' = NoEv /\ act' = Act("internal", 0)
+  /\ ev' = NoEv /\ act' = Act(IF Cardinality(hbOffers) > 1 \/ Cardinality({w \in hb : w.pc = "wait"}) > 1 THEN "choice" ELSE "internal", 0)
   /\ UNCHANGED <<now, srv, chan, sndSeq, rcvSeq, conn, mu, muq, snd, offers, hbNext, failSig, ackOpen, inbOpen, done, once,
                  closer, starting, queued, reader, got, delivered, rxq, sockOpen, c2g, g2c, dups, losses, injs, gwf, gw, bus, nsend, ntele, nid, epoch>>
 
 HbOfferExpire ==
   /\ \E o \in hbOffers : (o.exp = now \/ done) /\ hbOffers' = hbOffers \ {o}
-  /\ ev' = NoEv /\ act' = Act("timer", 0)
+  /\ ev' = NoEv /\ act' = TAct(0)
   /\ UNCHANGED <<now, srv, chan, sndSeq, rcvSeq, conn, mu, muq, snd, offers, hbNext, hb, failSig, ackOpen, inbOpen, done, once,
                  closer, starting, queued, reader, got, delivered, rxq, sockOpen, c2g, g2c, dups, losses, injs, gwf, gw, bus, nsend, ntele, nid, epoch>>
 
@@ -403,7 +420,7 @@ ParkReach ==
                  closer, rxq, sockOpen, c2g, g2c, dups, losses, injs, gwf, gw, bus, nsend, ntele, nid, epoch>>
 
 AppRecv ==
-  /\ reader = "idle" /\ inbOpen
+  /\ reader = "idle" /\ inbOpen /\ epoch > 0      \* Inbound() exists once NewTunnel has returned
   /\ IF Len(queued) > 0
      THEN /\ got' = Head(queued) /\ queued' = Tail(queued) /\ reader' = "got"
      ELSE /\ reader' = "waiting" /\ UNCHANGED <<got, queued>>
@@ -603,15 +620,21 @@ Tick ==
   /\ UNCHANGED <<srv, chan, sndSeq, rcvSeq, conn, mu, muq, snd, offers, hbNext, hb, hbOffers, failSig, ackOpen, inbOpen, done, once, closer,
                  starting, queued, reader, got, delivered, rxq, sockOpen, c2g, g2c, dups, losses, injs, gwf, gw, bus, nsend, ntele, nid, epoch>>
 
+\* With Urgent the client's own steps (and its due timers) take strict priority over every environment
+\* step -- the discipline of the virtual-time driver, which lets the client run until all of its goroutines
+\* block after every environment step. The conformance configurations (CONF_*) use it so that a generated
+\* behaviour is reproducible step by step; the property configurations leave the interleaving free.
+EnvOK == ~Urgent \/ (~ClientCanStep /\ ~TimerDue)
+
 Next ==
   \/ ConnResend \/ ConnTimeout \/ ConnTake \/ ConnLock
-  \/ \E g \in Senders : AppSend(g) \/ SendFirstTx(g) \/ SendTcpReturn(g) \/ SendResend(g) \/ SendTimeout(g) \/ SendTakeAck(g) \/ SendAckClosed(g)
+  \/ \E g \in Senders : (EnvOK /\ AppSend(g)) \/ SendFirstTx(g) \/ SendTcpReturn(g) \/ SendResend(g) \/ SendTimeout(g) \/ SendTakeAck(g) \/ SendAckClosed(g)
   \/ AckOfferExpire
   \/ ProcTake \/ ProcAckOut \/ ProcDiscRes \/ ServeReconnect \/ ServeExit
   \/ ProcHbTick \/ HbResend \/ HbTimeout \/ HbTakeRes \/ HbOfferExpire \/ ProcFailSignal
-  \/ ProcPush \/ ParkReach \/ AppRecv \/ AppRecvRet
-  \/ CloseEnter \/ CloseDisc \/ CloseWait
-  \/ NetToGw \/ NetToGwFault \/ NetToClient \/ NetLose \/ NetDup \/ GwTelegram \/ GwResend \/ GwGiveUp \/ Inject
+  \/ ProcPush \/ ParkReach \/ (EnvOK /\ AppRecv) \/ AppRecvRet
+  \/ (EnvOK /\ CloseEnter) \/ CloseDisc \/ CloseWait
+  \/ (EnvOK /\ (NetToGw \/ NetToGwFault \/ NetToClient \/ NetLose \/ NetDup \/ GwTelegram \/ GwResend \/ GwGiveUp \/ Inject))
   \/ Tick
 
 Spec == Init /\ [][Next]_vars
